@@ -98,9 +98,10 @@ static void logclear(void)
 	ncblog = 0;
 }
 
-struct diag { char *file; int line; char *msg; int hasfile; };
+struct diag { char *file; int line; char *msg; int hasfile; int nested; };
 static struct diag diags[MAXLOG];
 static int ndiag = 0;
+static int nest_level = 0;	/* >0 while a function callback parses into the auxiliary context */
 static void diagclear(void)
 {
 	int i;
@@ -119,6 +120,7 @@ static void errfunc(cfg_t *cfg, const char *fmt, va_list ap)
 		diags[ndiag].file = (cfg && cfg->filename) ? strdup(cfg->filename) : NULL;
 		diags[ndiag].line = cfg ? cfg->line : -1;
 		diags[ndiag].msg = strdup(buf);
+		diags[ndiag].nested = nest_level;
 		ndiag++;
 	}
 }
@@ -267,6 +269,15 @@ static int valid2_cb(cfg_t *cfg, cfg_opt_t *opt, void *value)
 	return fail ? 1 : 0;
 }
 
+/* named texts for the "ev" function: ev(name) parses the text into the auxiliary context c2
+ * while the outer parse is still running, and returns 0 whatever that parse returned */
+#define MAXTEXT 16
+static char *text_name[MAXTEXT], *text_body[MAXTEXT];
+static int ntext = 0;
+static long nested_status[MAXLOG];
+static int nnested = 0;
+static cfg_t *aux_ctx(void);
+
 static int func_cb(cfg_t *cfg, cfg_opt_t *opt, int argc, const char **argv)
 {
 	FILE *mf; char *buf; size_t len;
@@ -285,6 +296,22 @@ static int func_cb(cfg_t *cfg, cfg_opt_t *opt, int argc, const char **argv)
 	logadd(buf);
 	if (fail)
 		cfg_error(cfg, "function '%s' failed", cfg_opt_name(opt));
+	if (!fail && strcmp(cfg_opt_name(opt), "ev") == 0) {
+		cfg_t *aux = aux_ctx();
+		int k, r;
+		if (argc != 1 || !aux)
+			return 1;
+		for (k = 0; k < ntext; k++)
+			if (strcmp(text_name[k], argv[0]) == 0)
+				break;
+		if (k == ntext)
+			return 1;
+		nest_level++;
+		r = cfg_parse_buf(aux, text_body[k]);
+		nest_level--;
+		if (nnested < MAXLOG)
+			nested_status[nnested++] = r;
+	}
 	return fail ? 1 : 0;
 }
 
@@ -522,6 +549,7 @@ static struct schema *find_schema(const char *name)
 
 /* ---------- contexts ---------- */
 static cfg_t *ctx[MAXCTX];
+static cfg_t *aux_ctx(void) { return ctx[1]; }
 static int ctx_errfn[MAXCTX];
 
 static int ctx_index(const char *name)
@@ -740,10 +768,18 @@ static void emit(const char *cmd, const char *retjson, const char *extra)
 	fprintf(out, "{\"i\":%ld,\"cmd\":\"%s\",\"ret\":%s", cmd_index, cmd, retjson);
 	if (extra && *extra)
 		fprintf(out, ",%s", extra);
+	fprintf(out, ",\"nested\":[");
+	for (i = 0; i < nnested; i++)
+		fprintf(out, "%s{\"ret\":%ld}", i ? "," : "", nested_status[i]);
+	nnested = 0;
+	fprintf(out, "],\"ndiag_nested\":%d", (int)({ int c_ = 0, j_; for (j_ = 0; j_ < ndiag; j_++) c_ += diags[j_].nested != 0; c_; }));
 	fprintf(out, ",\"diag\":[");
-	for (i = 0; i < ndiag; i++) {
-		if (i)
+	for (i = 0, first = 1; i < ndiag; i++) {
+		if (diags[i].nested)
+			continue;	/* diagnostics of a nested parse into another context are counted apart */
+		if (!first)
 			fputc(',', out);
+		first = 0;
 		fprintf(out, "{\"file\":");
 		jstr(out, diags[i].file);
 		fprintf(out, ",\"line\":%d,\"msg\":", diags[i].line);
@@ -763,7 +799,7 @@ static void emit(const char *cmd, const char *retjson, const char *extra)
 		fprintf(out, ",\"oomfn\":\"%s\"", vf_failed_fn);
 	if (want_ctx_dump) {
 		fprintf(out, ",\"ctx\":{");
-		for (i = 0; i < MAXCTX; i++) {
+		for (i = 0, first = 1; i < MAXCTX; i++) {
 			if (!ctx[i])
 				continue;
 			if (!first)
@@ -829,6 +865,13 @@ static void reset_all(void)
 	nsimple = 0;
 	for (i = 0; i < MAXCTX; i++)
 		simple_release(i);
+	for (i = 0; i < ntext; i++) {
+		free(text_name[i]);
+		free(text_body[i]);
+	}
+	ntext = 0;
+	nnested = 0;
+	nest_level = 0;
 	for (i = 0; i < nallptrs; i++)
 		free(allptrs[i]);
 	nallptrs = 0;
@@ -1424,6 +1467,13 @@ int main(int argc, char **argv)
 				die("bad fs op");
 			free(path);
 			free(d);
+		} else if (strcmp(t[0], "text") == 0) {
+			/* text <name> <content> : a named text for ev(name) */
+			if (ntext >= MAXTEXT)
+				die("too many texts");
+			text_name[ntext] = pct_decode(ARG(1));
+			text_body[ntext] = subst_root(pct_decode(ARG(2)));
+			ntext++;
 		} else if (strcmp(t[0], "chdir") == 0) {
 			/* working directory of the process (restored at the next begin) */
 			char *d = pct_decode(ARG(1));
